@@ -23,6 +23,14 @@ func TestGeneratedUnitsParseWidened(t *testing.T) {
 	})
 }
 
+// the options added for the widened C01 (long lines) and C05 (identifier alphabet) generators
+func TestGeneratedUnitsParseLongExotic(t *testing.T) {
+	unitsParse(t, func(rt *rapid.T) Opts {
+		return Opts{Layout: true, Bodies: rapid.Bool().Draw(rt, "bodies"), MultiByte: true, Interfaces: true, Wide: true, RichDecl: true, WordNames: true,
+			SharedMethodNames: true, WildcardProjectImports: true, SuperCallsDeclared: true, ExoticNames: rapid.Bool().Draw(rt, "exotic"), LongLines: rapid.Bool().Draw(rt, "long")}
+	})
+}
+
 func unitsParse(t *testing.T, opts func(rt *rapid.T) Opts) {
 	rapid.Check(t, func(rt *rapid.T) {
 		p := GenProject(rt, opts(rt))
@@ -34,12 +42,12 @@ func unitsParse(t *testing.T, opts func(rt *rapid.T) Opts) {
 			lines := strings.Split(text, "\n")
 			for _, f := range u.Funcs {
 				l := []rune(lines[f.NameLine-1])
-				if string(l[f.NameCol:f.NameCol+len(f.Name)]) != f.Name {
+				if string(l[f.NameCol:f.NameCol+len([]rune(f.Name))]) != f.Name {
 					rt.Fatalf("name position of %s wrong", f.Name)
 				}
 				for _, e := range f.Events {
 					l := []rune(lines[e.Line-1])
-					if e.Col+len(e.Name) > len(l) || string(l[e.Col:e.Col+len(e.Name)]) != e.Name {
+					if n := len([]rune(e.Name)); e.Col+n > len(l) || string(l[e.Col:e.Col+n]) != e.Name {
 						rt.Fatalf("event %+v does not select its name in line %q", e, lines[e.Line-1])
 					}
 				}
@@ -70,5 +78,13 @@ func TestNoDuplicateUnits(t *testing.T) {
 			}
 			seenPath[u.Path], seenClass[u.FullName()] = true, true
 		}
+	})
+}
+
+// the option added for the widened C02 generator (unqualified calls of inherited / statically imported methods)
+func TestGeneratedUnitsParseUnqualifiedForeign(t *testing.T) {
+	unitsParse(t, func(rt *rapid.T) Opts {
+		return Opts{Bodies: true, MultiByte: true, Interfaces: true, Wide: true, Anon: true, RichDecl: true, Loops: true, MaxUnits: 4, MaxMethods: 4,
+			ScopedReuse: rapid.Bool().Draw(rt, "reuse"), SharedMethodNames: true, UnqualifiedForeign: true}
 	})
 }
